@@ -287,7 +287,7 @@ def rgb_to_oklch_safe(rgb: Tuple[int, int, int]) -> Tuple[float, float, float]:
         # Fallback to grayscale conversion if color conversion fails
         r, g, b = rgb
         gray = 0.299 * r + 0.587 * g + 0.114 * b
-        gray_normalized = gray / 255.0
+        gray_normalized = max(0.0, min(1.0, gray / 255.0))
         return (gray_normalized, 0.0, 0.0)  # Achromatic color
 
 
